@@ -1,18 +1,74 @@
-//! C19 executor: Tensor<i64, D> for D in 0..=4.
+//! C19 executor: Tensor<E, D> for E in {i64, i32, u8, String} and D in 0..=6, 8.
 //!
-//! input line :  D d_0..d_{D-1}  ctor  n x_0..x_{n-1}  op*
+//! input line :  D[:ty] d_0..d_{D-1}  ctor  n x_0..x_{n-1}  op*
+//!   ty   = i64 (default) | i32 | u8 | str (String holding the decimal text); elements travel as integers
 //!   ctor = V (from_vec) | S (from_slice) | N v (new; the data list is still parsed, and ignored)
-//!   op   = gi i*D | g i*D | s i*D v | it | dm | w | rt | db | rd r*D text | eq e*D m y*m
+//!   op   = gi i*D | g i*D | s i*D v | it | dm | w | rt | db | rd r*D text | eq e*D m y*m | im m v*m
 //!   text = written bytes with ' ' -> '_' and '\n' -> '/' ("." = empty)
 //! output line:  C|P  then one observation per op (nothing after a constructor panic):
 //!   gi -> offset|P   g -> value|P   s -> ok|P   it -> n x*n   dm -> d*D   w -> text|P
 //!   rt -> P | eqflag n x*n   (write, read back with the same dims, compare with ==, iterate)
 //!   rd -> P | d*D n x*n      (Tensor::read from the given text)
-//!   eq -> P | 0|1            (P: the second tensor cannot be constructed)
-//!   db -> Debug string with ' ' removed | P
-use rlib_io::{Reader, Writer};
+//!   eq -> P | 0|1|X          (P: the second tensor cannot be constructed; X: ==/!= not symmetric or not complementary)
+//!   db -> Debug string with ' ' (and '"') removed | P
+//!   im -> number of items iter_mut() yields (then the j-th item is assigned v_j, as far as both last)
+//!
+//! Internal consistency checks (a failure replaces the observation by a value the model never predicts):
+//!   * every tensor that did not come out of from_vec in front of the model (clone, clone_from target, Tensor::read
+//!     result, the tensor itself whatever its constructor) is compared, observer by observer (dims, iter, get_index and
+//!     Index at the valid indices, written text, Debug text), with from_vec(dims, iter) -- `it`, `dm`, `rt`, `rd`;
+//!   * copies are independent (writing to a clone through IndexMut / iter_mut leaves the original alone) -- `it`, `dm`;
+//!   * iter(): count / nth / last / size_hint agree with the collected elements -- `it`;
+//!   * one Writer carrying a scalar, the tensor, '\n' and the tensor again -- `w`;
+//!   * one Reader delivering the tensor twice and a following scalar -- `rd`.
+use rlib_io::{Readable, Reader, Writable, Writer};
 use rlib_tensor::Tensor;
 use vh::{guarded, p};
+
+const BAD: i64 = -999_999_999_999_999;
+
+trait Elem: Clone + PartialEq + std::fmt::Debug + Readable + Writable + 'static {
+    fn of(v: i64) -> Self;
+    fn to(&self) -> i64;
+}
+impl Elem for i64 {
+    fn of(v: i64) -> Self {
+        v
+    }
+    fn to(&self) -> i64 {
+        *self
+    }
+}
+impl Elem for i32 {
+    fn of(v: i64) -> Self {
+        i32::try_from(v).unwrap_or_else(|_| {
+            eprintln!("harness: {} is not an i32", v);
+            std::process::exit(3)
+        })
+    }
+    fn to(&self) -> i64 {
+        *self as i64
+    }
+}
+impl Elem for u8 {
+    fn of(v: i64) -> Self {
+        u8::try_from(v).unwrap_or_else(|_| {
+            eprintln!("harness: {} is not a u8", v);
+            std::process::exit(3)
+        })
+    }
+    fn to(&self) -> i64 {
+        *self as i64
+    }
+}
+impl Elem for String {
+    fn of(v: i64) -> Self {
+        v.to_string()
+    }
+    fn to(&self) -> i64 {
+        self.parse().unwrap_or(BAD)
+    }
+}
 
 fn enc(bytes: &[u8]) -> String {
     if bytes.is_empty() {
@@ -42,7 +98,7 @@ fn dec(s: &str) -> Vec<u8> {
         .collect()
 }
 
-fn written<const D: usize>(t: &Tensor<i64, D>) -> Vec<u8> {
+fn written<E: Elem, const D: usize>(t: &Tensor<E, D>) -> Vec<u8> {
     let mut v = Vec::new();
     {
         let mut w = Writer::new(Box::new(&mut v));
@@ -51,9 +107,66 @@ fn written<const D: usize>(t: &Tensor<i64, D>) -> Vec<u8> {
     v
 }
 
-fn read_from<const D: usize>(dims: [usize; D], bytes: Vec<u8>) -> Tensor<i64, D> {
+/// a scalar, the tensor, a newline and the tensor again through ONE writer
+fn shared_writer_ok<E: Elem, const D: usize>(t: &Tensor<E, D>, single: &[u8]) -> bool {
+    let got = guarded(|| {
+        let mut v = Vec::new();
+        {
+            let mut w = Writer::new(Box::new(&mut v));
+            w.write(&E::of(31));
+            w.write_char(' ');
+            w.write(t);
+            w.write_char('\n');
+            w.write(t);
+        }
+        v
+    });
+    let mut want = b"31 ".to_vec();
+    want.extend_from_slice(single);
+    want.push(b'\n');
+    want.extend_from_slice(single);
+    got == Some(want)
+}
+
+fn read_from<E: Elem, const D: usize>(dims: [usize; D], bytes: Vec<u8>) -> Tensor<E, D> {
     let mut r = Reader::new(Box::new(std::io::Cursor::new(bytes)));
-    Tensor::<i64, D>::read(dims, &mut r)
+    Tensor::<E, D>::read(dims, &mut r)
+}
+
+/// the text twice and a scalar behind it through ONE reader: two tensors and the scalar, token by token
+/// (only called after a read of `text` alone has succeeded, so there are enough tokens)
+fn shared_reader_ok<E: Elem, const D: usize>(dims: [usize; D], text: &[u8], n: usize) -> bool {
+    let s = String::from_utf8_lossy(text).to_string();
+    let one: Option<Vec<i64>> = s.split_ascii_whitespace().map(|x| x.parse::<i64>().ok()).collect();
+    let one = match one {
+        Some(v) if v.len() >= n => v,
+        _ => return true, // tokens that are not integers: nothing to compare against
+    };
+    let mut all = one.clone();
+    all.extend_from_slice(&one);
+    all.push(31);
+    // the second copy starts on the line on which the first one ends (a read that eats the rest of its last line loses tokens)
+    let mut bytes = text.to_vec();
+    bytes.push(b' ');
+    bytes.extend_from_slice(text);
+    bytes.extend_from_slice(b" 31\n");
+    let got = guarded(|| {
+        let mut r = Reader::new(Box::new(std::io::Cursor::new(bytes)));
+        let a = Tensor::<E, D>::read(dims, &mut r);
+        let b = Tensor::<E, D>::read(dims, &mut r);
+        let z: E = r.read();
+        (a, b, z)
+    });
+    match got {
+        Some((a, b, z)) => {
+            a.dims() == &dims
+                && b.dims() == &dims
+                && a.iter().map(|x| x.to()).eq(all[..n].iter().copied())
+                && b.iter().map(|x| x.to()).eq(all[n..2 * n].iter().copied())
+                && z.to() == all[2 * n]
+        }
+        None => false,
+    }
 }
 
 fn arr<const D: usize>(t: &[&str], at: &mut usize) -> [usize; D] {
@@ -71,23 +184,115 @@ fn list(out: &mut Vec<String>, it: impl Iterator<Item = i64>) {
     out.extend(v.iter().map(|x| x.to_string()));
 }
 
+/// the offsets at which a tensor of n elements is probed (all of them for small tensors)
+fn probes(n: usize) -> Vec<usize> {
+    if n <= 4096 {
+        return (0..n).collect();
+    }
+    let mut v: Vec<usize> = (0..1024).collect();
+    v.extend((0..1024).map(|k| 1024 + k * ((n - 2048) / 1024)));
+    v.extend(n - 1024..n);
+    v
+}
+
+/// multi-index of a storage offset (the harness' own mixed-radix digits; only used to enumerate indices)
+fn unflatten<const D: usize>(dims: &[usize; D], mut k: usize) -> [usize; D] {
+    let mut idx = [0usize; D];
+    for i in (0..D).rev() {
+        idx[i] = k % dims[i];
+        k /= dims[i];
+    }
+    idx
+}
+
+/// everything that can be observed of a tensor, as text
+fn fingerprint<E: Elem, const D: usize>(t: &Tensor<E, D>) -> Option<String> {
+    guarded(|| {
+        let mut s = format!("{:?}|", t.dims());
+        let n = t.iter().count();
+        for x in t.iter() {
+            s.push_str(&x.to().to_string());
+            s.push(',');
+        }
+        s.push('|');
+        if t.dims().iter().all(|&d| d > 0) {
+            for k in probes(n) {
+                let idx = unflatten(t.dims(), k);
+                s.push_str(&format!("{}:{},", t.get_index(idx), t[idx].to()));
+            }
+        }
+        // (the texts of long tensors are compared by the caller of the executor, not here)
+        if n <= 8192 {
+            s.push('|');
+            s.push_str(&String::from_utf8_lossy(&written(t)));
+            s.push('|');
+            s.push_str(&format!("{:?}", t));
+        }
+        s
+    })
+}
+
+/// `u` (obtained by clone / clone_from / read / any constructor) behaves like from_vec(u.dims(), u.iter())
+fn like_rebuilt<E: Elem, const D: usize>(u: &Tensor<E, D>) -> bool {
+    let r = guarded(|| Tensor::<E, D>::from_vec(*u.dims(), u.iter().cloned().collect()));
+    match r {
+        Some(r) => {
+            let f = fingerprint(u);
+            f.is_some() && f == fingerprint(&r) && *u == r && r == *u
+        }
+        None => false,
+    }
+}
+
 /// clone() and clone_from() (into a tensor that had another shape) give a tensor with the same shape and the same
-/// elements that compares equal in both directions
-fn copies_agree<const D: usize>(t: &Tensor<i64, D>) -> bool {
+/// elements that compares equal in both directions, behaves like a freshly built tensor under every observer and
+/// is independent of the original
+fn copies_agree<E: Elem, const D: usize>(t: &Tensor<E, D>) -> bool {
     let c = t.clone();
     let mut other = *t.dims();
     other.reverse();
     if D > 0 {
         other[0] += 1;
     }
-    let mut d = Tensor::<i64, D>::new(other, 0);
+    let mut d = Tensor::<E, D>::new(other, E::of(0));
     d.clone_from(t);
-    let same = [c, d].iter().all(|u| u.dims() == t.dims() && u.iter().eq(t.iter()) && u == t && t == u);
+    let before: Vec<i64> = t.iter().map(|x| x.to()).collect();
+    let n = before.len();
+    let mut ok = like_rebuilt(t);
+    for u in [c, d].iter_mut() {
+        ok = ok && u.dims() == t.dims() && u.iter().eq(t.iter()) && *u == *t && *t == *u && !(*u != *t) && like_rebuilt(u);
+        // independence: write to the copy (IndexMut at the last index, then iter_mut everywhere)
+        if n > 0 && t.dims().iter().all(|&x| x > 0) {
+            let last = unflatten(t.dims(), n - 1);
+            let nv = if before[n - 1] == 1 { 2 } else { 1 };
+            ok = ok && guarded(|| u[last] = E::of(nv)).is_some();
+            ok = ok && u.iter().map(|x| x.to()).eq(before[..n - 1].iter().copied().chain(std::iter::once(nv)));
+            ok = ok && t.iter().map(|x| x.to()).eq(before.iter().copied()) && *u != *t;
+            for x in u.iter_mut() {
+                *x = E::of(3);
+            }
+            ok = ok && u.iter().all(|x| x.to() == 3) && u.iter().count() == n;
+            ok = ok && t.iter().map(|x| x.to()).eq(before.iter().copied());
+        }
+    }
     // ... and the consuming iterator yields the elements in storage order
-    same && t.clone().into_iter().eq(t.iter().copied())
+    ok && t.clone().into_iter().map(|x| x.to()).eq(before.iter().copied())
 }
 
-fn run<const D: usize>(t: &[&str]) -> String {
+/// count / nth / last / size_hint of iter() agree with the collected elements
+fn iter_agrees<E: Elem, const D: usize>(t: &Tensor<E, D>) -> bool {
+    let v: Vec<i64> = t.iter().map(|x| x.to()).collect();
+    let n = v.len();
+    let (lo, hi) = t.iter().size_hint();
+    let mut ok = t.iter().count() == n && lo <= n && hi.map_or(true, |h| n <= h);
+    ok = ok && t.iter().last().map(|x| x.to()) == v.last().copied();
+    for k in [0, n / 2, n.saturating_sub(1), n, n + 1] {
+        ok = ok && t.iter().nth(k).map(|x| x.to()) == v.get(k).copied();
+    }
+    ok
+}
+
+fn run<E: Elem, const D: usize>(t: &[&str]) -> String {
     let mut at = 1;
     let dims: [usize; D] = arr(t, &mut at);
     let ctor = t[at];
@@ -100,12 +305,12 @@ fn run<const D: usize>(t: &[&str]) -> String {
     };
     let n: usize = p(t[at]);
     at += 1;
-    let data: Vec<i64> = (0..n).map(|k| p(t[at + k])).collect();
+    let data: Vec<E> = (0..n).map(|k| E::of(p(t[at + k]))).collect();
     at += n;
     let made = guarded(|| match ctor {
-        "V" => Tensor::<i64, D>::from_vec(dims, data.clone()),
-        "S" => Tensor::<i64, D>::from_slice(dims, &data),
-        "N" => Tensor::<i64, D>::new(dims, newv),
+        "V" => Tensor::<E, D>::from_vec(dims, data.clone()),
+        "S" => Tensor::<E, D>::from_slice(dims, &data),
+        "N" => Tensor::<E, D>::new(dims, E::of(newv)),
         other => {
             eprintln!("harness: unknown constructor {}", other);
             std::process::exit(3)
@@ -129,7 +334,7 @@ fn run<const D: usize>(t: &[&str]) -> String {
             }
             "g" => {
                 let idx: [usize; D] = arr(t, &mut at);
-                match guarded(|| tensor[idx]) {
+                match guarded(|| tensor[idx].to()) {
                     Some(x) => out.push(x.to_string()),
                     None => out.push("P".into()),
                 }
@@ -138,17 +343,17 @@ fn run<const D: usize>(t: &[&str]) -> String {
                 let idx: [usize; D] = arr(t, &mut at);
                 let v: i64 = p(t[at]);
                 at += 1;
-                match guarded(|| tensor[idx] = v) {
+                match guarded(|| tensor[idx] = E::of(v)) {
                     Some(()) => out.push("ok".into()),
                     None => out.push("P".into()),
                 }
             }
             // iteration, also through clone() and through clone_from() into a tensor of another shape: a copy
-            // that iterates differently or does not compare equal is printed as the empty list (never the iteration of a
-            // constructed tensor: extents are positive)
+            // that iterates differently, does not compare equal or fails one of the consistency checks above is printed
+            // as the empty list (never the iteration of a constructed tensor: extents are positive)
             "it" => {
-                if copies_agree(&tensor) {
-                    list(&mut out, tensor.iter().copied())
+                if copies_agree(&tensor) && iter_agrees(&tensor) {
+                    list(&mut out, tensor.iter().map(|x| x.to()))
                 } else {
                     out.push("0".into())
                 }
@@ -160,18 +365,20 @@ fn run<const D: usize>(t: &[&str]) -> String {
                     .map(|(i, d)| if same && tensor.dim(i) == *d { d.to_string() } else { "0".to_string() }))
             }
             "w" => match guarded(|| written(&tensor)) {
-                Some(b) => out.push(enc(&b)),
+                Some(b) => out.push(if shared_writer_ok(&tensor, &b) { enc(&b) } else { "BADW2".into() }),
                 None => out.push("P".into()),
             },
             "rt" => {
                 let r = guarded(|| {
                     let bytes = written(&tensor);
-                    read_from(*tensor.dims(), bytes)
+                    read_from::<E, D>(*tensor.dims(), bytes)
                 });
                 match r {
                     Some(t2) => {
-                        out.push(if t2 == tensor { "1" } else { "0" }.into());
-                        list(&mut out, t2.iter().copied());
+                        let fine = t2 == tensor && tensor == t2 && !(t2 != tensor) && like_rebuilt(&t2)
+                            && fingerprint(&t2) == fingerprint(&tensor);
+                        out.push(if fine { "1" } else { "0" }.into());
+                        list(&mut out, t2.iter().map(|x| x.to()));
                     }
                     None => out.push("P".into()),
                 }
@@ -180,10 +387,15 @@ fn run<const D: usize>(t: &[&str]) -> String {
                 let rdims: [usize; D] = arr(t, &mut at);
                 let bytes = dec(t[at]);
                 at += 1;
-                match guarded(|| read_from(rdims, bytes)) {
+                match guarded(|| read_from::<E, D>(rdims, bytes.clone())) {
                     Some(t2) => {
                         out.extend(t2.dims().iter().map(|d| d.to_string()));
-                        list(&mut out, t2.iter().copied());
+                        let n2 = t2.iter().count();
+                        if like_rebuilt(&t2) && shared_reader_ok::<E, D>(rdims, &bytes, n2) {
+                            list(&mut out, t2.iter().map(|x| x.to()));
+                        } else {
+                            out.push("0".into())
+                        }
                     }
                     None => out.push("P".into()),
                 }
@@ -192,22 +404,35 @@ fn run<const D: usize>(t: &[&str]) -> String {
                 let edims: [usize; D] = arr(t, &mut at);
                 let m: usize = p(t[at]);
                 at += 1;
-                let y: Vec<i64> = (0..m).map(|k| p(t[at + k])).collect();
+                let y: Vec<E> = (0..m).map(|k| E::of(p(t[at + k]))).collect();
                 at += m;
-                match guarded(|| Tensor::<i64, D>::from_vec(edims, y)) {
+                match guarded(|| Tensor::<E, D>::from_vec(edims, y)) {
                     Some(u) => {
                         let a = tensor == u;
                         let b = u == tensor;
-                        // both directions are printed: 0/1, or X if == is not symmetric
-                        out.push(if a != b { "X" } else if a { "1" } else { "0" }.into());
+                        let na = tensor != u;
+                        let nb = u != tensor;
+                        // both directions are printed: 0/1, or X if == is not symmetric or != is not its negation
+                        out.push(if a != b || na == a || nb == b { "X" } else if a { "1" } else { "0" }.into());
                     }
                     None => out.push("P".into()),
                 }
             }
             "db" => match guarded(|| format!("{:?}", tensor)) {
-                Some(s) => out.push(enc(s.replace(' ', "").as_bytes())),
+                Some(s) => out.push(enc(s.replace([' ', '"'], "").as_bytes())),
                 None => out.push("P".into()),
             },
+            "im" => {
+                let m: usize = p(t[at]);
+                at += 1;
+                let vs: Vec<i64> = (0..m).map(|k| p(t[at + k])).collect();
+                at += m;
+                let cnt = tensor.iter_mut().count();
+                for (x, v) in tensor.iter_mut().zip(vs) {
+                    *x = E::of(v);
+                }
+                out.push(cnt.to_string());
+            }
             other => {
                 eprintln!("harness: unknown op {}", other);
                 std::process::exit(3)
@@ -217,16 +442,35 @@ fn run<const D: usize>(t: &[&str]) -> String {
     out.join(" ")
 }
 
-fn main() {
-    vh::serve(|t| match t[0] {
-        "0" => run::<0>(t),
-        "1" => run::<1>(t),
-        "2" => run::<2>(t),
-        "3" => run::<3>(t),
-        "4" => run::<4>(t),
+fn by_rank<E: Elem>(rank: &str, t: &[&str]) -> String {
+    match rank {
+        "0" => run::<E, 0>(t),
+        "1" => run::<E, 1>(t),
+        "2" => run::<E, 2>(t),
+        "3" => run::<E, 3>(t),
+        "4" => run::<E, 4>(t),
+        "5" => run::<E, 5>(t),
+        "6" => run::<E, 6>(t),
+        "8" => run::<E, 8>(t),
         other => {
             eprintln!("harness: unsupported rank {}", other);
             std::process::exit(3)
+        }
+    }
+}
+
+fn main() {
+    vh::serve(|t| {
+        let (rank, ty) = t[0].split_once(':').unwrap_or((t[0], "i64"));
+        match ty {
+            "i64" => by_rank::<i64>(rank, t),
+            "i32" => by_rank::<i32>(rank, t),
+            "u8" => by_rank::<u8>(rank, t),
+            "str" => by_rank::<String>(rank, t),
+            other => {
+                eprintln!("harness: unsupported element type {}", other);
+                std::process::exit(3)
+            }
         }
     });
 }
